@@ -111,17 +111,84 @@ theorem condZero_written_none (s sub : Rebuild w) (cond v : Int)
       cases h
   · rw [← condZero_written_ne s sub cond v hv]; exact h
 
-/-- A state whose condition cell is not zero is a valid entry state of the child. -/
-theorem ChildOk.valid_head {shP shC cS : Int} {pc : List (Rebuild w)} {sub0 sub1 : Rebuild w}
-    {bodyS : List (Instr w)} (hc : ChildOk shP shC pc sub0 sub1 cS bodyS) {σ : State w}
-    (hne : σ.rd (cS + shP) ≠ 0#w) : Valid shP sub0 pc σ := by
+/-- A state whose condition cell is not zero is a valid entry state of the child, when the child's guard is
+trivial (the case of a real loop). -/
+theorem ChildOk.valid_head {Gc : State w → Prop} {shP shC cS : Int} {pc : List (Rebuild w)}
+    {sub0 sub1 : Rebuild w} {bodyS : List (Instr w)} (hc : ChildOk Gc shP shC pc sub0 sub1 cS bodyS)
+    (hall : ∀ σ, Gc σ) {σ : State w} (hne : σ.rd (cS + shP) ≠ 0#w) : ValidG Gc shP sub0 pc σ := by
   have hsm : SameMem shP (σ.mov shP) σ := ⟨rfl, rfl, rfl, by funext v; rfl⟩
   have hne' : (σ.mov shP).rd cS ≠ 0#w := by
     show σ.tape.get (σ.ptr + shP + cS) ≠ 0#w
     have e : σ.ptr + shP + cS = σ.ptr + (cS + shP) := by omega
     rw [e]; exact hne
-  obtain ⟨M0c, hre⟩ := hc.entry σ (σ.mov shP) hsm hne'
-  exact ⟨M0c, _, hre⟩
+  obtain ⟨M0c, hre⟩ := hc.entry σ (σ.mov shP) hsm hne' (hall _)
+  exact ⟨M0c, _, hre, hall _⟩
+
+/-- One execution of a child along the footprint when only a THIRD state `σX` (the source memory at the emitted
+program's pointer) is a valid entry state of the child: the child's footprint is used twice with `σX` as the valid
+first run (against `τ1` and against `τ2`) and the two simulations are composed. -/
+theorem child_chain {Gc : State w → Prop} {shP : Int} {pc : List (Rebuild w)} {sub0 sub : Rebuild w}
+    (hfoot : FootStepV (ValidG Gc shP sub0 pc) sub0 sub sub.insts)
+    (hbad : FootBadV (ValidG Gc shP sub0 pc) sub0 sub sub.insts)
+    (hframe : FootFrameV (ValidG Gc shP sub0 pc) sub0 sub sub.insts)
+    (hns : sub.subShift = false) (hw0 : sub0.written = [])
+    {σX τ1 τ2 : State w} (hvX : ValidG Gc shP sub0 pc σX) {X : Int → Prop}
+    (hXr : ∀ v, X v → v ∉ sub.reads)
+    (hp : σX.ptr = τ1.ptr) (he : σX.env = τ1.env) (ht : σX.trace = τ1.trace)
+    (hR : ∀ v ∈ sub.reads, memE σX v = memE τ1 v) (hag : AgreeOff X τ1 τ2) :
+    Sim (fun a b => a.ptr = b.ptr ∧ a.env = b.env ∧ a.trace = b.trace ∧
+        (∀ v, (DefW sub v ∨ ¬ (memE σX v ≠ memE τ1 v ∨ X v)) → memE a v = memE b v) ∧
+        (∀ v, v ∉ mKeys sub.written → v ∉ sub.reads → memE a v = memE τ1 v ∧ memE b v = memE τ2 v))
+      sub.insts sub.insts τ1 τ2 ∧
+    (Bad sub.insts τ2 → Bad sub.insts σX) ∧
+    (∀ b, Exec sub.insts τ2 (.fin b) →
+      b.ptr = τ2.ptr ∧ ∀ v, v ∉ mKeys sub.written → v ∉ sub.reads → memE b v = memE τ2 v) := by
+  have hK1r : ∀ v, memE σX v ≠ memE τ1 v → v ∉ sub.reads := fun v h hr' => h (hR v hr')
+  have hK2r : ∀ v, (memE σX v ≠ memE τ1 v ∨ X v) → v ∉ sub.reads := by
+    rintro v (h | h) hr'
+    · exact h (hR v hr')
+    · exact hXr v h hr'
+  have hag1 : AgreeOff (Rest (fun v => memE σX v ≠ memE τ1 v) sub0) σX τ1 :=
+    ⟨hp, he, ht, fun v hv => Classical.not_not.1 (fun h => hv ((rest_fresh hw0 v).2 h))⟩
+  have hag2 : AgreeOff (Rest (fun v => memE σX v ≠ memE τ1 v ∨ X v) sub0) σX τ2 := by
+    refine ⟨hp.trans hag.1, he.trans hag.2.1, ht.trans hag.2.2.1, ?_⟩
+    intro v hv
+    have hv' : ¬ (memE σX v ≠ memE τ1 v ∨ X v) := fun h => hv ((rest_fresh hw0 v).2 h)
+    have e1 : memE σX v = memE τ1 v := Classical.not_not.1 (fun h => hv' (Or.inl h))
+    rw [e1]
+    exact hag.2.2.2 v (fun h => hv' (Or.inr h))
+  refine ⟨?_, fun hb => hbad hns _ hK2r σX τ2 hvX hag2 hb, fun b hb => hframe hns _ hK2r σX τ2 hvX hag2 b hb⟩
+  have S1 := (hfoot hns _ hK1r σX τ1 hvX hag1).fin_strengthen
+  have S2 := (hfoot hns _ hK2r σX τ2 hvX hag2).fin_strengthen
+  refine (Sim.trans S1.symm S2).mono ?_
+  rintro a b ⟨y, ⟨hya, _, hea⟩, ⟨hyb, _, heb⟩⟩
+  obtain ⟨_, fa⟩ := hframe hns _ hK1r σX τ1 hvX hag1 a hea
+  obtain ⟨_, fb⟩ := hframe hns _ hK2r σX τ2 hvX hag2 b heb
+  refine ⟨hya.1.symm.trans hyb.1, hya.2.1.symm.trans hyb.2.1, hya.2.2.1.symm.trans hyb.2.2.1, ?_,
+    fun v h1 h2 => ⟨fa v h1 h2, fb v h1 h2⟩⟩
+  intro v h
+  have ha : memE y v = memE a v := by
+    apply hya.2.2.2 v
+    rintro ⟨hk, hnd⟩
+    rcases h with h | h
+    · exact hnd h
+    · exact h (Or.inl hk)
+  have hb : memE y v = memE b v := by
+    apply hyb.2.2.2 v
+    rintro ⟨hk, hnd⟩
+    rcases h with h | h
+    · exact hnd h
+    · exact h hk
+  rw [← ha, hb]
+
+/-- If the source instruction has no terminating run, neither has the emitted code (from a related state). -/
+theorem nofin_of_step {G : State w → Prop} {sh sh' : Int} {ps : List (Rebuild w)} {s s' : Rebuild w}
+    {src new : List (Instr w)} (hst : StepNG G sh sh' ps s s' src new) {M0 : Mem w} {σ1 σS : State w}
+    (hrel : RelAt sh s ps M0 σ1 σS) (hg : G σS) (hn : ∀ x, ¬ Exec src σS (.fin x)) :
+    ∀ x, ¬ Exec new σ1 (.fin x) := by
+  intro x hx
+  obtain ⟨y, hy, _⟩ := (hst.2 M0 σ1 σS hrel hg).1.finR x hx
+  exact hn y hy
 
 /-! ### the child moves the pointer -/
 
@@ -171,7 +238,7 @@ theorem loopPrep_stay_cut {s : Rebuild w} {ps : List (Rebuild w)} {sub1 : Rebuil
     (hr : (loopPrep s ps sub1 cond L C).run os = .ok (r, os')) :
     ∃ s1 s2 s3 os1 os2,
       (emitReadAll ps (readsSorted { sub1 with reads := sIns sub1.reads cond } s) s).run os = .ok (s1, os1) ∧
-      (emitAll ps ((mKeys sub1.written).filter (fun var => C.contains var)) s1).run os1 = .ok (s2, os2) ∧
+      (emitReadAll ps ((mKeys sub1.written).filter (fun var => C.contains var)) s1).run os1 = .ok (s2, os2) ∧
       (clobberPhase s2 ps { sub1 with reads := sIns sub1.reads cond } L C).run os2 = .ok (s3, os') ∧
       r = (condZero s3 { sub1 with reads := sIns sub1.reads cond } cond,
         { sub1 with reads := sIns sub1.reads cond }, (mKeys sub1.written).filter (fun var => !C.contains var)) := by
@@ -210,7 +277,7 @@ theorem loopPrep_stay_foot {s : Rebuild w} {ps : List (Rebuild w)} {sub1 : Rebui
   obtain ⟨c1, r1, f1⟩ := emitReadAll_foot ps _ hwf e1
   obtain ⟨_, _, n1⟩ := emitReadAll_pending_none ps _ hwf e1
   obtain ⟨_, _, k1⟩ := emitReadAll_reads ps _ hwf e1
-  obtain ⟨c2, r2, f2⟩ := emitAll_foot ps _ r1.wf e2
+  obtain ⟨c2, r2, f2⟩ := emitReadAll_foot ps _ r1.wf e2
   obtain ⟨c3, q1, q2, q3, q4, q5, q6, q7, q8⟩ :=
     clobberPhase_foot ps { sub1 with reads := sIns sub1.reads cond } L C r2.wf hwf1.writ e3
   have hcz := condZero_same s3 { sub1 with reads := sIns sub1.reads cond } cond
@@ -305,17 +372,111 @@ theorem loopPrep_stay_foot {s : Rebuild w} {ps : List (Rebuild w)} {sub1 : Rebui
     have hs1 : s1.subShift = false := f2.mono.2 hs2
     exact (f1.frame hs1).1 v ((f2.frame hs2).1 v (q8 hs3 v (condZero_written_none _ _ _ v hv)))
 
+/-- The semantic side of the parent's preparation: after the groups the condition cell of a related emitted
+state holds the source's value; and the state with the SOURCE memory at the emitted program's pointer is a valid
+entry state of the child that agrees with the emitted memory on what the child reads and (when the loop has an
+effect) on the cells the child only maybe-writes. -/
+theorem loopPrep_stay_semctx {Gc : State w → Prop} {shP shC cS : Int} {bodyS : List (Instr w)} {s : Rebuild w}
+    {ps : List (Rebuild w)} {sub1 : Rebuild w} {L : OptLoop w} {C : List Int} {pc : List (Rebuild w)}
+    {sub0 : Rebuild w} (hc : ChildOk Gc shP shC pc sub0 sub1 cS bodyS) (hwf : Wf s) (hwf1 : Wf sub1)
+    (hns : (sub1.subShift || sub1.shift != s.shift) = false)
+    {os os' : Orders} {r : Rebuild w × Rebuild w × List Int}
+    (hr : (loopPrep s ps sub1 (cS + shP) L C).run os = .ok (r, os')) :
+    ∃ comps : List (List (Int × Expr w)), r.1.insts = s.insts ++ comps.map Instr.calc ∧
+      ∀ M0 (σ1 σS : State w), RelAt shP s ps M0 σ1 σS →
+        (comps.foldl doCalc σ1).rd (cS + shP) = σS.rd cS ∧
+        (σS.rd cS ≠ 0#w → Gc σS →
+          ValidG Gc shP sub0 pc (σS.mov (-shP)) ∧ ¬ Bad sub1.insts (σS.mov (-shP)) ∧
+          (σS.mov (-shP)).ptr = (comps.foldl doCalc σ1).ptr ∧
+          (σS.mov (-shP)).env = (comps.foldl doCalc σ1).env ∧
+          (σS.mov (-shP)).trace = (comps.foldl doCalc σ1).trace ∧
+          (∀ v ∈ sub1.reads, memE (σS.mov (-shP)) v = memE (comps.foldl doCalc σ1) v) ∧
+          (L.noEffect = false → ∀ v k, (v, k) ∈ sub1.written → k.isMaybe = true →
+            memE (σS.mov (-shP)) v = memE (comps.foldl doCalc σ1) v)) := by
+  obtain ⟨s3', comps, Dx, hreq, hclob, hdrop, hreads, hconstP, hdead, hminvx⟩ := loopPrep_stay hwf hns hr
+  have e1 : r.1.insts = s3'.insts := by
+    rw [hreq]
+    exact (condZero_same s3' _ (cS + shP)).2.2.2.2.2.2.2.2.2.1
+  refine ⟨comps, e1.trans hclob.insts, ?_⟩
+  intro M0 σ1 σS hrel
+  obtain ⟨m1, m2, m3⟩ := foldl_doCalc_meta comps σ1
+  have hX : MInvX Dx s3' ps M0 (memE (comps.foldl doCalc σ1)) (memS (comps.foldl doCalc σ1) σS) := by
+    rw [memE_foldl_doCalc σ1 comps hclob.nodup, memS_foldl_doCalc]
+    exact hminvx M0 _ _ hrel.inv
+  have hSE : ∀ v, mGet s3'.pending v = none → ¬ Dx v →
+      memS (comps.foldl doCalc σ1) σS v = memE (comps.foldl doCalc σ1) v := by
+    intro v hp hd
+    rw [hX.pendX v hd]; exact par_of_not_mem _ _ _ hp
+  have hR : ∀ v, (v ∈ sub1.reads ∨ v = cS + shP) →
+      memS (comps.foldl doCalc σ1) σS v = memE (comps.foldl doCalc σ1) v := by
+    intro v hv
+    apply hSE v (hreads v hv)
+    intro hd
+    obtain ⟨n1, n2⟩ := hdrop.notRead v hd
+    rcases hv with h | h
+    · exact n1 h
+    · exact n2 h
+  refine ⟨?_, ?_⟩
+  · have h2' : σS.rd cS = memS (comps.foldl doCalc σ1) σS (cS + shP) := by
+      rw [memS_foldl_doCalc]
+      exact hrel.rdS cS
+    rw [h2', hR _ (Or.inr rfl)]
+    rfl
+  · intro hne hg
+    have hXptr : (σS.mov (-shP)).ptr = (comps.foldl doCalc σ1).ptr := by
+      rw [m1]
+      show σS.ptr + -shP = σ1.ptr
+      rw [hrel.ptr]; omega
+    have hsm : SameMem shP σS (σS.mov (-shP)) := by
+      refine ⟨rfl, rfl, ?_, by funext v; rfl⟩
+      show σS.ptr = σS.ptr + -shP + shP
+      omega
+    obtain ⟨M0c, hre⟩ := hc.entry (σS.mov (-shP)) σS hsm hne hg
+    have hXS : ∀ v, memE (σS.mov (-shP)) v = memS (comps.foldl doCalc σ1) σS v := by
+      intro v
+      show σS.tape.get ((σS.mov (-shP)).ptr + v) = σS.tape.get ((comps.foldl doCalc σ1).ptr + v)
+      rw [hXptr]
+    refine ⟨⟨M0c, σS, hre, hg⟩, (hc.rep M0c _ σS hre hg).2, hXptr, ?_, ?_, ?_, ?_⟩
+    · show σS.env = _
+      rw [m2]; exact hrel.env
+    · show σS.trace = _
+      rw [m3]; exact hrel.tr
+    · intro v hv
+      rw [hXS v]
+      exact hR v (Or.inl hv)
+    · intro hnev v k hvk hm
+      rw [hXS v]
+      have hkey : v ∈ mKeys sub1.written := List.mem_map.2 ⟨(v, k), hvk, rfl⟩
+      have hnd : ¬ Dx v := by
+        intro hd
+        obtain ⟨k', hk', hm'⟩ := hdrop.written v hd
+        have g1 := mGet_of_mem hwf1.writ hvk
+        have g2 := mGet_of_mem hwf1.writ hk'
+        rw [g1] at g2
+        cases g2
+        rw [hm] at hm'
+        cases hm'
+      cases hC : C.contains v with
+      | true => exact hSE v (hconstP v hkey hC) hnd
+      | false => exact hSE v (hdead hnev (v, k) hvk hC).1 hnd
+
 /-! ### the child does not move the pointer: `loopOrIf` -/
 
-theorem loopOrIf_stay_foot {shP shC cS : Int} {bodyS : List (Instr w)}
+theorem loopOrIf_stay_foot {shP shC shS cS : Int} {bodyS : List (Instr w)}
     {s : Rebuild w} {ps : List (Rebuild w)} {sub : Rebuild w} {cond : Int} {isLoop : Bool} {L : OptLoop w}
     {C : List Int} {pc : List (Rebuild w)} {sub0 : Rebuild w} {os os' : Orders} {s' : Rebuild w}
+    {G Gc : State w → Prop}
     (hr : (loopOrIf s ps sub cond isLoop L C).run os = .ok (s', os'))
-    (hwf : Wf s) (hpre : ChildPre shP shC pc sub0 sub cS bodyS)
+    (hwf : Wf s) (hpre : ChildPre Gc shP shC pc sub0 sub cS bodyS)
     (hns : (sub.subShift || sub.shift != s.shift) = false)
     (hcond : cond = cS + shP)
-    (halo : L.atLeastOnce = true → ∀ M0 σE σS, RelAt shP s ps M0 σE σS → σS.rd cS ≠ 0#w) :
-    ∃ new, s'.insts = s.insts ++ new ∧ FootStepV (Valid shP s ps) s s' new ∧ ReadsMono s s' ∧
+    (hGc : ∀ M0 σE σS, RelAt shP s ps M0 σE σS → G σS → ∀ k σk, Head cS shS bodyS σS k σk →
+      (isLoop = false → k = 0) → σk.rd cS ≠ 0#w → Gc σk)
+    (hGcT : isLoop = true → ∀ σ, Gc σ)
+    (hifne : isLoop = false → L.noEffect = true → ∀ M0 σ1 σS, RelAt shP s ps M0 σ1 σS → G σS →
+      σS.rd cS ≠ 0#w → ∀ new x, s'.insts = s.insts ++ new → ¬ Exec new σ1 (.fin x))
+    (halo : L.atLeastOnce = true → ∀ M0 σE σS, RelAt shP s ps M0 σE σS → G σS → σS.rd cS ≠ 0#w) :
+    ∃ new, s'.insts = s.insts ++ new ∧ FootStepV (ValidG G shP s ps) s s' new ∧ ReadsMono s s' ∧
       (s'.subShift = false → ∀ v, mGet s'.written v = none → mGet s.written v = none) := by
   subst hcond
   obtain ⟨sub1, os1, r, h1, h2, rfl⟩ := loopOrIf_run hr
@@ -326,16 +487,11 @@ theorem loopOrIf_stay_foot {shP shC cS : Int} {bodyS : List (Instr w)}
     exact this.2
   have hns1 : (sub1.subShift || sub1.shift != s.shift) = false := by
     rw [hc.noShift, hshift1, hshEq]; simp
-  -- the semantic package (for "the condition cell is not zero")
-  obtain ⟨s3', compsL, Dx, hreq, hclob, hdrop, hreads, _, _, hminvx⟩ := loopPrep_stay hwf hns1 h2
+  -- the semantic package
+  obtain ⟨compsL, eL, hsemc⟩ := loopPrep_stay_semctx hc hwf hwf1 hns1 h2
   -- the footprint package
   obtain ⟨comps, hsubR, p1, p2, p3, p4, p5, p6, p7⟩ := loopPrep_stay_foot hwf hwf1 hns1 h2
-  have hcompsL : compsL = comps := by
-    apply calc_map_inj
-    have e1 : r.1.insts = s3'.insts := by
-      rw [hreq]
-      exact (condZero_same s3' _ (cS + shP)).2.2.2.2.2.2.2.2.2.1
-    exact List.append_cancel_left (hclob.insts.symm.trans (e1.symm.trans p1))
+  have hcompsL : compsL = comps := calc_map_inj (List.append_cancel_left (eL.symm.trans p1))
   subst hcompsL
   -- fields of the result
   obtain ⟨t1, _, _, t4, t5, _, t7⟩ := loopTail_fields r.1 r.2.1 (cS + shP) isLoop L
@@ -368,9 +524,12 @@ theorem loopOrIf_stay_foot {shP shC cS : Int} {bodyS : List (Instr w)}
       · cases hv
       · exact hv
     · exact hv
+  have hinsts : (loopTail r.1 r.2.1 (cS + shP) isLoop L (sub1.subShift || sub1.shift != s.shift) r.2.2).insts =
+      s.insts ++ (compsL.map Instr.calc ++ [if isLoop then Instr.loop (cS + shP) 0 sub1.insts L.atLeastOnce
+        else Instr.ifnz (cS + shP) 0 sub1.insts]) := by
+    rw [t7, p1, List.append_assoc]
   refine ⟨compsL.map Instr.calc ++ [if isLoop then Instr.loop (cS + shP) 0 sub1.insts L.atLeastOnce
-      else Instr.ifnz (cS + shP) 0 sub1.insts], ?_, ?_, ?_, ?_⟩
-  · rw [t7, p1, List.append_assoc]
+      else Instr.ifnz (cS + shP) 0 sub1.insts], hinsts, ?_, ?_, ?_⟩
   · -- the read footprint
     intro hss K hK σ1 σ2 v1 hag
     have hssP : r.1.subShift = false := by rw [← hssEq]; exact hss
@@ -388,32 +547,21 @@ theorem loopOrIf_stay_foot {shP shC cS : Int} {bodyS : List (Instr w)}
       exact hab.2.2.2 (cS + shP) (fun h => (hX _ h).1.2 rfl)
     have hAreads : ∀ v, HeadSet K r.1 sub1 (cS + shP) L C v → v ∉ sub1.reads := fun v h => h.1.1
     -- one round
-    have hround : ∀ a b : State w, AgreeOff (HeadSet K r.1 sub1 (cS + shP) L C) a b →
+    have hround : (∀ σ, Gc σ) → ∀ a b : State w, AgreeOff (HeadSet K r.1 sub1 (cS + shP) L C) a b →
         a.rd (cS + shP) ≠ 0#w →
         Sim (fun a' b' => AgreeOff (Rest (HeadSet K r.1 sub1 (cS + shP) L C) sub1) (a'.mov 0) (b'.mov 0))
           sub1.insts sub1.insts a b := by
-      intro a b hab hne
+      intro hall a b hab hne
       have hab0 : AgreeOff (Rest (HeadSet K r.1 sub1 (cS + shP) L C) sub0) a b :=
         hab.congr (fun v => (rest_fresh hc.w0 v).symm)
-      exact (hc.foot hc.noShift _ hAreads a b (hc.valid_head hne) hab0).mono
+      exact (hc.foot hc.noShift _ hAreads a b (hc.valid_head hall hne) hab0).mono
         (fun a' b' h => h.mov0)
     -- the loop runs at least once when that is claimed
     have hfirst : L.atLeastOnce = true → τ1.rd (cS + shP) ≠ 0#w := by
       intro hal
-      obtain ⟨M0, σS, hrel⟩ := v1
-      have hneS := halo hal M0 σ1 σS hrel
-      have hX : MInvX Dx s3' ps M0 (memE τ1) (memS τ1 σS) := by
-        rw [hτ1, memE_foldl_doCalc σ1 compsL hclob.nodup, memS_foldl_doCalc]
-        exact hminvx M0 _ _ hrel.inv
-      have hnd : ¬ Dx (cS + shP) := fun hd => (hdrop.notRead _ hd).2 rfl
-      have h1' : memS τ1 σS (cS + shP) = memE τ1 (cS + shP) := by
-        rw [hX.pendX _ hnd]
-        exact par_of_not_mem _ _ _ (hreads _ (Or.inr rfl))
-      have h2' : σS.rd cS = memS τ1 σS (cS + shP) := by
-        rw [hτ1, memS_foldl_doCalc]
-        exact hrel.rdS cS
-      rw [h2', h1'] at hneS
-      exact hneS
+      obtain ⟨M0, σS, hrel, hg⟩ := v1
+      rw [hτ1, (hsemc M0 σ1 σS hrel).1]
+      exact halo hal M0 σ1 σS hrel hg
     -- leaving the loop / if
     have hexit : ∀ a b : State w, AgreeOff (HeadSet K r.1 sub1 (cS + shP) L C) a b →
         (L.atLeastOnce = true → AgreeOff (Rest (HeadSet K r.1 sub1 (cS + shP) L C) sub1) a b) →
@@ -444,7 +592,7 @@ theorem loopOrIf_stay_foot {shP shC cS : Int} {bodyS : List (Instr w)}
       · rintro a b ⟨hab, _⟩
         exact hab.2.2.1.symm
       · rintro a b ⟨hab, _⟩ hne
-        refine (hround a b hab hne).mono ?_
+        refine (hround (hGcT rfl) a b hab hne).mono ?_
         intro a' b' h
         exact ⟨h.mono (fun v hv => hv.1), Or.inr h⟩
       · rintro a b ⟨hab, hor⟩ hz
@@ -459,9 +607,55 @@ theorem loopOrIf_stay_foot {shP shC cS : Int} {bodyS : List (Instr w)}
       refine Sim.ifnz ?_ hA.2.2.1.symm ?_ ?_
       · rw [hAcond _ τ1 τ2 (fun _ h => h) hA]
       · intro hne
-        refine (hround τ1 τ2 hA hne).mono ?_
-        intro a' b' h
-        exact hexit _ _ (h.mono (fun v hv => hv.1)) (fun _ => h)
+        -- the body runs once, from the head that corresponds to the real source state
+        obtain ⟨M0, σS, hrel, hg⟩ := v1
+        obtain ⟨hcell, hctx⟩ := hsemc M0 σ1 σS hrel
+        rw [← hτ1] at hcell hctx
+        have hneS : σS.rd cS ≠ 0#w := by rw [← hcell]; exact hne
+        have hGcS : Gc σS := hGc M0 σ1 σS hrel hg 0 σS Head.zero (fun _ => rfl) hneS
+        obtain ⟨hvX, _, hXp, hXe, hXt, hXr, hXm⟩ := hctx hneS hGcS
+        obtain ⟨Sc, _, _⟩ := child_chain hc.foot hc.badfoot hc.frame2 hc.noShift hc.w0 hvX hAreads hXp hXe hXt
+          hXr hA
+        cases hnev : L.noEffect with
+        | true =>
+          -- once entered, the block never ends: the end-state relation is void
+          refine Sc.of_no_fin ?_
+          intro x hx
+          refine hifne rfl hnev M0 σ1 σS hrel hg hneS _ (x.mov 0) hinsts ?_
+          refine (exec_calcs_iff compsL _ σ1 _).2 ?_
+          simp only [Bool.false_eq_true, if_false]
+          rw [← hτ1]
+          exact Exec.ifIter hne hx (Exec.nil _)
+        | false =>
+          refine Sc.mono ?_
+          rintro a b ⟨q1, q2, q3, via, fr⟩
+          refine AgreeOff.mov0 ⟨q1, q2, q3, ?_⟩
+          intro v hv
+          by_cases hd : DefW sub1 v
+          · exact via v (Or.inl hd)
+          by_cases hXv : HeadSet K r.1 sub1 (cS + shP) L C v
+          · obtain ⟨⟨_, hvc⟩, hcase⟩ := hXv
+            have hdw := DefW.of_get_eq (hwne v hvc)
+            rcases hcase with ⟨hk, hnd⟩ | ⟨hk, hcl⟩
+            · exact absurd ⟨hk, fun hd' => hnd (hdw.1 hd')⟩ hv
+            · by_cases hd' : DefW r.1 v
+              · exact absurd (p6 v hvc hcl hd').2 hd
+              · exact absurd ⟨hk, fun h => hd' (hdw.1 h)⟩ hv
+          by_cases hk1 : memE (σS.mov (-shP)) v = memE τ1 v
+          · exact via v (Or.inr (fun h => h.elim (fun h' => h' hk1) hXv))
+          · by_cases hkey : v ∈ mKeys sub1.written
+            · exfalso
+              obtain ⟨vk, hvk, e⟩ := List.mem_map.1 hkey
+              have hmb : vk.2.isMaybe = true := by
+                cases hm : vk.2.isMaybe with
+                | true => rfl
+                | false =>
+                  exact absurd ⟨vk.2, by rw [← e]; exact mGet_of_mem hwf1.writ hvk, hm⟩ hd
+              exact hk1 (hXm hnev v vk.2 (by rw [← e]; exact hvk) hmb)
+            · have hrd : v ∉ sub1.reads := fun h => hk1 (hXr v h)
+              obtain ⟨fa, fb⟩ := fr v hkey hrd
+              rw [fa, fb]
+              exact hA.2.2.2 v hXv
       · intro hz
         exact hexit τ1 τ2 hA (fun hal => absurd hz (hfirst hal))
   · refine ⟨fun v hv => ?_, fun h => p4.2 (by rw [← hssEq]; exact h)⟩
